@@ -46,6 +46,8 @@ type c05Oracle struct {
 	canonKeys bool                // conf: keys are compared in canonical form (userName == user_name == UserName)
 	allStr    bool                // WithStringValues(): every scalar comes as a string (as with form / path / header values)
 	keyFn     func(string) string // WithCanonicalKeyFunc: the declared key is looked up as keyFn(key)
+	native    bool                // the document is a hand-built Go map (native value types): acceptance is never demanded
+	numText   bool                // JSON-text and map sources: an accepted NUMBER in a string field must still denote that number
 }
 
 func c05NewOracle() *c05Oracle {
@@ -185,6 +187,17 @@ func (o *c05Oracle) walkStruct(fs []c05Fld, obj *c05JV, val reflect.Value, path 
 		}
 		if f.Env {
 			o.class("env-unset")
+		}
+		if f.OD != "" {
+			// optional=<key> / optional=!<key>: when such a field may be absent is not fixed by the
+			// statement (acceptance is never demanded); a PRESENT value is still held to exactness,
+			// options= and range=, an absent one may only leave zero or the default
+			o.unspec("optional-dep")
+		}
+		if f.T.P && (f.T.K == "map" || f.T.K == "slice") {
+			// finding ptr-to-collection-panic: fillMap / fillSlice / fillSliceFromString use the
+			// pointer type as if it were the map / slice type
+			o.panicPred["ptr-to-collection-panic"] = true
 		}
 		ms := obj.lookup(o.docKey(f.key(i)))
 		if len(ms) == 0 && f.Inh {
@@ -383,6 +396,16 @@ func (o *c05Oracle) sliceDefault(f *c05Fld, fv reflect.Value, p string) {
 
 func (o *c05Oracle) absent(f *c05Fld, fv reflect.Value, p string) {
 	t := &f.T
+	if t.P && (t.K == "slice" || t.K == "map") {
+		o.unspec("pointer-to-collection")
+		if fv.IsValid() && fv.Kind() == reflect.Ptr {
+			if fv.IsNil() {
+				fv = reflect.Zero(fv.Type().Elem()) // nothing stored: an empty collection
+			} else {
+				fv = fv.Elem()
+			}
+		}
+	}
 	constrained := f.Def != nil || f.Opt
 	_ = constrained
 	switch {
@@ -475,13 +498,18 @@ func (o *c05Oracle) absent(f *c05Fld, fv reflect.Value, p string) {
 func (o *c05Oracle) value(t *c05Typ, f *c05Fld, v *c05JV, fv reflect.Value, pos int, p string) {
 	if t.P && fv.IsValid() {
 		if fv.Kind() != reflect.Ptr || fv.IsNil() {
-			if fv.Kind() == reflect.Ptr {
+			illTypedColl := t.K == "slice" && v.T != "arr" || t.K == "map" && v.T != "obj" // (e.g. the JSON text "null" for a *map field)
+			if fv.Kind() == reflect.Ptr && !illTypedColl {
 				o.mismatch("", "%s: present value %s but pointer left nil", p, v.JSON())
 			}
 			fv = reflect.Value{}
 		} else {
 			fv = fv.Elem()
 		}
+	}
+	if t.P && (t.K == "slice" || t.K == "map") {
+		// *[]T / *map[string]T: the code answers a present array with a type-mismatch error (allowed)
+		o.unspec("pointer-to-collection")
 	}
 	switch t.K {
 	case "struct":
@@ -578,6 +606,11 @@ func (o *c05Oracle) value(t *c05Typ, f *c05Fld, v *c05JV, fv reflect.Value, pos 
 			// a defined key type (map[Key]T): the code rejects it (string keys are not assignable): allowed
 			o.unspec("defined-map-key")
 		}
+		if o.native && !t.E.P && c05IsScalar(t.E.K) && t.E.K != "text" {
+			// a typed Go map (map[string]int, map[string]MyBool ...) whose element type has the kind
+			// of, but is not, the field's element type
+			o.panicPred["typed-map-elem-kind-only-panic"] = true
+		}
 		seen := map[string]int{}
 		for i := range v.M {
 			seen[v.M[i].K]++
@@ -663,6 +696,16 @@ func (o *c05Oracle) scalar(t *c05Typ, f *c05Fld, v *c05JV, fv reflect.Value, pos
 			}
 			if v.T == "num" && str && f != nil && len(f.Opts) > 0 && pos == 0 {
 				o.panicPred["stringoption-number-options-panic"] = true
+			}
+			if v.T == "num" && o.numText && fv.IsValid() {
+				// whether a number is taken for a string field is not specified; if it is, the
+				// field must still denote that number (65 may be stored as "65", never as "A")
+				if want, ok := c05Exact(v.S); ok {
+					got, ok2 := new(big.Rat).SetString(fv.String())
+					if !c05ReDecFloat.MatchString(fv.String()) || !ok2 || got.Cmp(want) != 0 {
+						o.mismatch("", "%s: document number %s, string field holds %q", p, v.S, fv.String())
+					}
+				}
 			}
 			return
 		}
@@ -985,7 +1028,13 @@ func (o *c05Oracle) constraints(f *c05Fld, text string, exact *big.Rat, _ float6
 		if !in {
 			o.hot = true
 			o.class("outside-range")
-			o.fail("", "%s: %s outside range %+v", p, text, *f.Rng)
+			known := ""
+			if f.OD != "" {
+				// finding optional-dep-range-dropped: toOptionsWithContext rebuilds the options of a
+				// PRESENT optional=<dep> field without its range
+				known = "optional-dep-range-dropped"
+			}
+			o.fail(known, "%s: %s outside range %+v", p, text, *f.Rng)
 			return false
 		}
 		o.class("inside-range")
@@ -1043,6 +1092,8 @@ var c05PanicSig = map[string][]string{
 	"env-pointer-panic":                      {"on zero Value"},
 	"env-int64-duration-panic":               {"value of type time.Duration is not assignable to type int64"},
 	"fillslicefromstring-null-elem-panic":    {"invalid memory address or nil pointer dereference"},
+	"ptr-to-collection-panic":                {"reflect: Key of non-map type *"},
+	"typed-map-elem-kind-only-panic":         {"reflect.Value.SetMapIndex: value of type"},
 }
 
 func c05PanicKnown(o *c05Oracle, msg string) string {
@@ -1051,9 +1102,15 @@ func c05PanicKnown(o *c05Oracle, msg string) string {
 		ids = append(ids, id)
 	}
 	sort.Strings(ids)
+	if o.panicPred["ptr-to-collection-panic"] && (strings.Contains(msg, "reflect: Key of non-map type *") ||
+		strings.Contains(msg, "reflect.Set: value of type []") && strings.Contains(msg, "is not assignable to type *")) {
+		// (more specific than the older signatures it shares a prefix with)
+		return "ptr-to-collection-panic"
+	}
 	for _, id := range ids {
 		sigs := c05PanicSig[id]
 		switch id {
+		case "ptr-to-collection-panic":
 		case "fillslice-struct-elem-panic":
 			if strings.Contains(msg, sigs[0]) && strings.Contains(msg, sigs[1]) {
 				return id
